@@ -22,7 +22,7 @@ pub fn mon() -> Mon {
             "validly configured contexts and response buffers of at least 64 bytes",
             "when both decode_packet and process_packet panic on an input there is nothing to compare (that panic is C10's)",
         ],
-        children: no_children,
+        children: rel_child_quarter,
     }
 }
 
